@@ -3,11 +3,30 @@
 import json
 props=[json.loads(l) for l in open('/verif/properties.jsonl')]
 BFS="explicit-state BFS of the real implementation over bounded op histories"
+LS="explicit-state BFS of the (real Vt, reference terminal) product in lock-step; reference-model oracle on every transition + hidden state via feature hook"
 T={
 "C01":("Bounded exhaustive exploration of the real Vt in an overflow-checks + debug-assertions build: all op histories up to the depth bound over ~90 ops (every function, truncated sequences, resizes, every Changes treatment) on 1x1..4x3 screens x scrollback limits; at every state all accessors, TextCollector, and an extreme-parameter layer (0/1/65535/65536/1e11 for every CSI final, 40 params, 9 sub-params, truncated SGR, all C1) followed by ordinary ops; plus every Unicode scalar from every parser state. Oracle: no panic, watchdog, per-call allocation envelope.",
        "Running time is only judged against a coarse envelope (5 s per call, watchdog, allocation bytes); screens bounded.", BFS+" + exhaustive scalar sweep; no-panic/work-envelope oracle"),
 "C02":("Bounded exhaustive exploration of the real Vt: every op history up to the depth bound over a ~85-op alphabet (all functions, modes, truncated sequences, resizes, feed/feed_str/drop variants) on 1x1..4x3 screens and 3-6 scrollback limits, plus a deeper alt-screen/resize sub-alphabet; all geometry invariants evaluated after every single call.",
        "Screens and depths are bounded as reported in the evidence; dedup relies on derived Debug covering all state and a 128-bit hash.", BFS+", invariant oracle after every call"),
+"C03":("Every (parser state x parameter/intermediate background) x every listed Unicode scalar compared with a table-driven reference parser transcribed from Williams' diagram (+ the four stated deviations); every CSI final x prefix x 44 parameter shapes x intermediates in 7- and 8-bit form and every ESC final x intermediates, each after a parameter-heavy sequence; ESC Fe vs C1 twins from every background; product BFS of (real Parser, reference) over class-representative tokens for memorylessness.",
+       "Functions not compared where the statements do not fix them (>32 params, >6 sub-params, values >65535, malformed SGR colours, marker+intermediate combinations, charset finals other than 0/B).", "exhaustive state x input table sweep + explicit-state product BFS against a reference parser"),
+"C04":("Lock-step BFS of (real Vt, reference terminal) over printable chars of every class, REP, DECAWM/IRM, SO/SI, G0/G1 designation and cursor/margin/pen/resize setup on 1x1..4x2 screens; full lines(), cursor, hidden modes and the wrap mark of the row left by a wrap compared after every transition; plus the complete charset translation table.",
+       "Readings R1-R7 (DESIGN §3.2); screens tiny.", LS),
+"C05":("Lock-step BFS over every movement/addressing command x parameter class x spelling, DECOM, valid/invalid DECSTBM, wrap-pending setup and resizes; cursor, cells (must not change), margins and modes compared after every transition.",
+       "Readings R1-R7; wrap-pending column compared as min(col, cols-1) after vertical moves.", LS),
+"C06":("Lock-step BFS from screens whose rows carry distinct content: LF/IND/NEL/RI, SU/SD/IL/DL x counts incl. 65535, valid/invalid DECSTBM, wrap-causing text, coloured pen, alternate screen, resizes; every row of lines() incl. scrollback and the margins compared after every transition.",
+       "Wrap marks after scrolls adopted; unlimited scrollback (+ limit 0 config).", LS),
+"C07":("Lock-step BFS from a completely filled (all rows soft-wrapped) and a blank screen: ED/EL x selectors, ECH/ICH/DCH x counts incl. 65535, DECALN, cursor on every cell and in the wrap-pending column, three pens; every cell, the exact cursor and specified wrap marks compared.",
+       "Extents computed from the reported column (R2); marks after EL1/ED1 on the cursor row, ICH, DECALN adopted.", LS),
+"C08":("Lock-step BFS to FIXPOINT over the pen space with every SGR code as its own sequence (both colour encodings, 7/8-bit, unknown codes) followed by a print and an erase; all ordered pairs/triples of 24 representative parameters in one vs separate sequences; all 256 indices x fg/bg x both forms. Hidden pen and both cells (nine accessors) compared.",
+       "Malformed colour forms and components > 255 unspecified.", LS+"; pen space closed to fixpoint"),
+"C16":("BFS over histories mixing primary edits, entry/exit by 47/1047/1049, everything executable on the alternate screen and resizes; frame oracle (blank alt screen in current pen, text() constant, primary lines() identical or re-wrapped-not-altered, 1049 restores cursor) + lock-step run of the buffer switches against the reference terminal.",
+       "Showing screen read through the verif hook; relational clause only for unlimited scrollback.", BFS+", frame/relational oracle + lock-step reference model"),
+"C17":("Lock-step BFS over the four save and four restore spellings, cursor placement incl. wrap-pending, pens, DECOM/DECAWM, margins, 47/1047/1049, DECSTR, resizes; cursor, pen, modes and BOTH saved contexts (hook) compared after every transition.",
+       "R6: DECSTR/RIS discard saved contexts; after a resize only 'inside the screen' is required of a restored position.", LS),
+"C18":("(a) every pair of widths 1..100 and triple of widths 1..26: tab stops after the resize chain equal those of a fresh terminal (hook + HT scan); (b) lock-step BFS over CHA to boundary columns, HTS/CTC/TBC, HT/CHT/CBT counts, wrap-pending, resizes to 7 widths against a BTreeSet model.",
+       "Stop in column 0 unobservable; set/clear from the wrap-pending column unspecified (pruned).", "exhaustive width-chain enumeration + "+LS),
 "C09":("Exhaustive enumeration of all texts of <=k lines with line lengths 0..m over small alphabets (incl. non-ASCII, spaces), each fed whole and per char to every width 1..W x height 1..H; text() and TextUnwrapper(lines()) must equal the input lines.",
        "Characters limited to listed alphabets; lengths bounded (cover len == k*cols for every width).", "exhaustive input enumeration against the real implementation, exact expected-value oracle"),
 "C10":("All states reachable by an editing alphabet up to the depth bound are used as seeds; from each, every chain of <=2 resizes over 10 sizes; each resize judged by a relational oracle on logical lines and the cursor's logical position.",
@@ -34,10 +53,10 @@ for p in props:
     if i in T:
         t,n,tech=T[i]
         checks.append({"property_id":i,"quick_cmd":f"./check {i} quick","thorough_cmd":f"./check {i} thorough","evidence_file":f"/verif/evidence/{i}.json","replay_cmd_template":"./check --replay {path}","engine":"avtmc","level_claimed":{"category":"model_checking","text":t,"design_ref":f"DESIGN.md §4 {i}"},"level_note":n,"technique":tech})
-m={"version":1,"setup_cmd":"cd /verif/harness && CARGO_NET_OFFLINE=true cargo build --release --offline","hooks":{"guard":"avt_verif (declared, unused: no hooks are needed)","enable":"none - the harness uses only avt's public API and Debug","baseline_off_cmd":"cd /repo && cargo test --workspace --no-fail-fast --offline","source_commits":[],"add_only":True},
+m={"version":1,"setup_cmd":"cd /verif/harness && CARGO_NET_OFFLINE=true cargo build --release --offline","hooks":{"guard":"cargo feature `verif` of the avt crate","enable":"harness/Cargo.toml depends on avt with features=[\"verif\"] (adds the read-only Vt::verif_state())","baseline_off_cmd":"cd /repo && cargo test --workspace --no-fail-fast --offline","source_commits":["69ec11d"],"add_only":True},
 "engines":[{"name":"avtmc","path":"/verif/harness","serves_properties":claimed,"kind_free_text":"custom level-synchronous parallel BFS over op histories of the real avt::Vt (states rebuilt by replay, dedup on a 128-bit fingerprint of the Debug rendering), with invariant / differential / reference-model oracles"}],
 "checks":checks,
-"notes":"See DESIGN.md. Properties listed under not_applicable with reason 'check not built yet' are work in progress.",
+"notes":"See DESIGN.md. Genuine defects repaired in /repo as fix: commits 94874da (C19), fd7d59d (C05), 26980ca (C04), 3f030b4 (C18); recorded findings in known_findings.json.",
 "not_applicable":[{"property_id":p['id'],"reason":"check not built yet in this commit (planned, see DESIGN.md §4)"} for p in props if p['id'] not in T]}
 json.dump(m,open('/verif/MANIFEST.json','w'),indent=1)
 print("claimed",claimed)
